@@ -32,6 +32,13 @@ ASSUMPTIONS = [
     'a back-reference to a group that did not participate in the match: no verdict',
     'invalid patterns: only constructions that are invalid under XSD 1.0, XSD 1.1 and F&O grammars alike',
     "case-insensitive mode: case-variants by fn:lower-case/fn:upper-case = python str.lower()/str.upper()",
+    'fn check: subjects consist of XML characters only; with flag q the replacement string is literal (F&O 3.1); '
+    'function results are compared with the reference only on subjects where translate_pattern + re already '
+    'agrees with it (translation defects belong to the xsd/xpath/cls checks); captured groups ($N, fn:group) '
+    'are not judged',
+    'flag x: ignorable white space is generated between pieces and inside classes, not inside {n,m} or \\p{..}',
+    'patterns whose class algebra takes seconds to translate ([huge set-[negated class]]) are generated rarely '
+    'and skipped by the fn check (performance is not part of the property)',
 ]
 FLOORS = {
     'pat:checked': (0.90, 'pat:any'),
